@@ -304,6 +304,16 @@ def run(tier, seed, replay=None):
                 fam = l.split()[0]
                 sig = 'C20:blake2-counter:profile-divergence' if src == 'counter' else 'C20:%s:%s:%s' % (src, fam, kind)
                 rep.violations.append((c, i, sig, 'rel: %s | %s: %s' % (' '.join(a or ['<none>'])[:80], c, ' '.join(b or ['<none>'])[:80]), l, b))
+        if i < n_src and a and 'PANIC' in a and sources[i][0] != 'c20-accepted-params':
+            # a panic in the release build on a workload line: legitimate only where the owning property's model expects a refusal there
+            # (input after result, over-limit KDF request, ...); otherwise the library failed to return normally on a valid input
+            from ..dispatch import check_any
+            try:
+                bad = check_any(l, a)
+            except Exception:
+                bad = []
+            if bad:
+                rep.violations.append(('rel', i, 'C20:%s:%s:panic-on-valid-input' % (sources[i][0], l.split()[0]), 'release build panicked where the specification model expects a value: %s' % bad[0][1][:160], l, a))
         if i < n_src and sources[i][0] == 'c20-accepted-params' and (not a or 'PANIC' in a):
             rep.violations.append(('rel', i, 'C20:accepted-params:%s:panic' % l.split()[0], 'parameters accepted by the builder, then the operation panicked: %s' % ' '.join(a or ['<none>'])[:80], l, a))
     # (a') the same comparison at volume: bulk lines (cxv/bulk.py) - millions of curve / field / scalar / Poly1305 calls on derived inputs; an
